@@ -360,15 +360,64 @@ Definition outcome_eqb (a b : outcome) : bool :=
   | _, _ => false
   end.
 
+(* ---------- AbstractInitializer.samples_from_model ----------
+   `draws` is the stream of points the initializer generates, in generation order: (unit vector,
+   physical vector, what figure_of_metric returns for it: Some fom, or None for a FitException /
+   NaN / value below -1e98).  Every round draws min(remaining, n_cores) points, evaluates them
+   through the pool (results in input order), zips the results with the drawn vectors BY POSITION
+   and keeps the triples whose result is not None. *)
+Section Init.
+  Variable V : Type.
+  Definition draw := (list V * list V * option V)%type.
+  Definition kept := (list V * list V * V)%type.
+  Definition keep_of (d : draw) : list kept :=
+    match d with (u, p, Some f) => [(u, p, f)] | (_, _, None) => [] end.
+  Definition kept_of (l : list draw) : list kept := flat_map keep_of l.
+  (* zip(pool.map(fom, batch), units_, params_) filtered on `is not None` *)
+  Definition batch_kept (batch : list draw) : list kept :=
+    flat_map (fun rup : option V * (list V * list V) =>
+                match rup with (Some f, (u, p)) => [(u, p, f)] | (None, _) => [] end)
+             (combine (map (fun d : draw => snd d) batch) (map (fun d : draw => fst d) batch)).
+  Fixpoint init_run (fuel ncores total : nat) (draws : list draw) (acc : list kept)
+    : option (list kept * list draw) :=
+    match fuel with
+    | O => None
+    | S fuel' =>
+        if Nat.leb total (length acc) then Some (acc, draws)
+        else
+          let b := Nat.min (total - length acc) ncores in
+          if Nat.eqb b 0 then None                               (* n_cores = 0 never terminates *)
+          else if Nat.ltb (length draws) b then None             (* the recorded stream is exhausted *)
+          else init_run fuel' ncores total (skipn b draws) (acc ++ batch_kept (firstn b draws))
+    end.
+End Init.
+
 (* ---------- correspondence cases ---------- *)
 Inductive case :=
 | Case (pp : list (path * nat))                    (* model.path_priors_tuples (path id, prior id rank) *)
        (cols : list nat)                           (* prior ids of model.priors_ordered_by_id *)
        (ptab : list (list float * float)) (etab : list (float * float))
-       (st : fstate) (expected : outcome).
+       (st : fstate) (expected : outcome)
+| CaseInit (ncores total : nat) (draws : list (draw float))          (* every point the initializer drew *)
+           (units params : list (list float)) (foms : list float).   (* what samples_from_model returned *)
+
+Definition kept_eqb (a : kept float) (u p : list float) (f : float) : bool :=
+  match a with (u', p', f') => flist_eqb u' u && flist_eqb p' p && fbits_eqb f' f end.
+Fixpoint kept_list_eqb (l : list (kept float)) (us ps : list (list float)) (fs : list float) : bool :=
+  match l, us, ps, fs with
+  | [], [], [], [] => true
+  | a :: l', u :: us', p :: ps', f :: fs' => kept_eqb a u p f && kept_list_eqb l' us' ps' fs'
+  | _, _, _, _ => false
+  end.
 
 Definition check_case (c : case) : bool :=
   match c with
   | Case pp cols ptab etab st e =>
       list_eqb Nat.eqb (column_ids pp) cols && outcome_eqb (model_outcome pp ptab etab st) e
+  | CaseInit ncores total draws us ps fs =>
+      match init_run float (S (length draws)) ncores total draws [] with
+      | Some (out, rest) => kept_list_eqb out us ps fs
+                            && match rest with [] => true | _ => false end   (* no draw beyond the last round *)
+      | None => false
+      end
   end.
